@@ -19,7 +19,7 @@ RULE = ("random binary datasets n in 10..40, 2..3 groups, one feature with 2..5 
         "learner = ExactLearner (exact weighted 0/1 minimiser over all labellings of the feature cells, or over 1-D thresholds in "
         "both directions + constants; in a fifth of the cases wrapped in a scikit-learn Pipeline with sample_weight_name='clf__sample_weight') "
         "so the hypothesis class H is enumerable; 5 parity moments x 9 bound specs; eps in "
-        "{0.01..0.25}, max_iter in {1,3,6,10,25,50}, nu in {1e-6..0.05}, eta0 in {0.5,2,8}, LP step on/off. Oracle: err/gamma "
+        "{0.01..0.25} (in a quarter of the cases the estimator was fitted on other data of the same size before), max_iter in {1,3,6,10,25,50}, nu in {1e-6..0.05}, eta0 in {0.5,2,8}, LP step on/off. Oracle: err/gamma "
         "tables over H from refs/moments.py; Q = weights_ over predictors_[t].predict(X); true duality gap of (Q, lambda-hat) for "
         "lambda-hat in {mean of lambda_vecs_EG_[:, :best_iter_+1], lambda_vecs_LP_[best_iter_]} (minimum over the candidates) "
         "must be <= best_gap_; independent LP (HiGHS) for the constrained optimum: err(Q) <= OPT + 2g and every constraint "
@@ -61,10 +61,19 @@ def run_case(cls, key, seed, ctx):
     kw = {"sensitive_features": g}
     if c is not None:
         kw["control_features"] = c
+    refit = bool(rng.random() < 0.25)
+    if refit:
+        # the estimator (and its constraints object) was fitted on other data of the same size before: the guarantees
+        # are about the LAST fit
+        ds0 = ML.make_dataset(rng, nmin=ds.n, nmax=ds.n, kmax=3, feature_levels=int(ds.X[:, 0].max()) + 1, control=ds.c is not None)
+        kw0 = {"sensitive_features": ds0.g}
+        if ds0.c is not None:
+            kw0["control_features"] = ds0.c
+        eg.fit(ds0.X, ds0.y, **kw0)
     eg.fit(X, y, **kw)
     B = 1.0 / eps
     wit = {"moment": kind, "bound": list(bound), "y": ds.y, "groups": ds.g, "control": ds.c, "x": ds.X[:, 0].tolist(), "hclass": hclass,
-           "eps": eps, "max_iter": max_iter, "nu": nu, "eta0": eta0, "lp": lp, "pipeline_estimator": composite, "best_gap_": float(eg.best_gap_), "best_iter_": int(eg.best_iter_),
+           "eps": eps, "max_iter": max_iter, "nu": nu, "eta0": eta0, "lp": lp, "pipeline_estimator": composite, "fitted_on_other_data_before": refit, "best_gap_": float(eg.best_gap_), "best_iter_": int(eg.best_iter_),
            "last_iter_": int(eg.last_iter_)}
     ctx.ev("fits_checked")
     mom = eg.constraints
